@@ -3,6 +3,7 @@ import D2P.Model.Output
 import D2P.Proofs.Elems
 import D2P.Props.C02Stray
 import D2P.Props.C02BodyStray
+import D2P.Props.C02Notes
 /-!
 # Open findings, as kernel-checked witnesses
 
@@ -83,6 +84,23 @@ theorem part_hypotheses :
     itemsOK strayDoc.kids = true ∧
     (match walk cfg [] false ({ bullets := { numAttrs := [] } } : DC) strayDoc with
       | .ok s5 => s5.queued.isEmpty | .error _ => false) = true := by
+  decide +kernel
+
+/-- a notes part: a separator note, a note holding only a display equation, a note with a paragraph and an equation -/
+def notesDoc : Xml :=
+  el 0 "footnotes" [] none [
+    el 1 "footnote" [wattr "type" "separator", wattr "id" "-1"] none [p 2 [r 3 [el 4 "separator" [] none []]]],
+    el 5 "footnote" [wattr "id" "1"] none [strayEq],
+    el 10 "footnote" [wattr "id" "2"] none [p 11 [r 12 [t 13 "n2"]], strayEq]]
+
+/-- non-vacuity of `C02_notes_part`, and the repaired behaviour of 13.33 as a kernel-checked value: every note keeps
+its label and its text -/
+theorem notes_part_witness :
+    notesPartOK notesDoc = true ∧
+    (match walk cfg [] false ({ bullets := { numAttrs := [] } } : DC) notesDoc with
+      | .ok s5 => s5.queued.isEmpty | .error _ => false) = true ∧
+    (newDepthCollector cfg [] notesDoc >>= runStrs) =
+      .ok [[], [lit "footnote1)\t", lit "<latex>z</latex>"], [lit "footnote2)\t", lit "n2"], [lit "<latex>z</latex>"]] := by
   decide +kernel
 
 end D2P.Ex
